@@ -25,6 +25,15 @@ func extraCorpus() map[string]string {
 			out["x_"+e.Name()] = filepath.Join(root, e.Name())
 		}
 	}
+	// packages of a module that declares an older Go version
+	old := filepath.Join(filepath.Dir(root), "oldmod")
+	if ents, err := os.ReadDir(old); err == nil {
+		for _, e := range ents {
+			if e.IsDir() {
+				out["o_"+e.Name()] = filepath.Join(old, e.Name())
+			}
+		}
+	}
 	return out
 }
 
